@@ -164,4 +164,19 @@ theorem c14_k3_witness :
         = some ([65, 65, 65, 65], [[114, 47, 120]], none) := by
   refine ⟨by decide +kernel, by decide +kernel⟩
 
+/-! ## the boundary: column units under non-ASCII text (known finding K4) -/
+
+/-- `CachedSource(ConcatSource[OriginalSource("é;", "f"), OriginalSource("b", "g")])` -/
+def k4Witness : Src := .cached 0 (.concat (.cons (.orig [195, 169, 59] [102]) (.cons (.orig [98] [103]) .nil)))
+
+/-- **repeating a call changes its answer when the text is not ASCII** (known finding K4; outside C10's quantifier, inside C14's): the
+first stream of `k4Witness` reports the second child at column 3 — ConcatSource counts the *bytes* of `"é;"` — and stores that; the
+second stream replays the stored map through the map-driven splitter, which counts *chars* (`"é;b"` has three), so column 3 lies
+beyond the line: one chunk `"é;b"` comes out, attributed to file `f` alone — the byte `b` has moved from `g` to `f`. -/
+theorem c14_k4_witness :
+    chunkMs (k4Witness.stream ⟨true, false⟩ []).1.evs = [⟨1, 0, some ⟨0, 1, 0, none⟩⟩, ⟨1, 3, some ⟨1, 1, 0, none⟩⟩]
+    ∧ chunkMs (k4Witness.stream ⟨true, false⟩ (k4Witness.stream ⟨true, false⟩ []).2).1.evs = [⟨1, 0, some ⟨0, 1, 0, none⟩⟩]
+    ∧ evsText (k4Witness.stream ⟨true, false⟩ (k4Witness.stream ⟨true, false⟩ []).2).1.evs = [195, 169, 59, 98] := by
+  refine ⟨by decide +kernel, by decide +kernel, by decide +kernel⟩
+
 end Rs
